@@ -374,10 +374,13 @@ def obs_of(spec: dict, m):
     return _space(cfg["obs"])
 
 
-def forward(spec: dict, m, x, seed: int):
-    """deterministic readout of the function the module computes (eval mode, seeded sampler)"""
+def forward(spec: dict, m, x, seed: int, train: bool = False):
+    """deterministic readout of the function the module computes: eval mode (default) or training mode
+    (NoisyLinear adds its noise buffers, BatchNorm uses batch statistics), same RNG state before the call.
+    The module is left exactly as it was: mode restored, buffers a training-mode pass updates put back."""
     was = m.training
-    m.eval()
+    saved = [(b, b.detach().clone()) for b in m.buffers()] if train else []
+    m.train(train)
     torch.manual_seed(seed)
     try:
         with torch.no_grad():
@@ -389,8 +392,15 @@ def forward(spec: dict, m, x, seed: int):
                 y = m(x)
     finally:
         m.train(was)
+        with torch.no_grad():
+            for b, v in saved:
+                b.copy_(v)
     ys = y if isinstance(y, (tuple, list)) else [y]
     return [t.detach().clone() for t in ys if isinstance(t, torch.Tensor)]
+
+
+def outputs_differ(y0, y1) -> bool:
+    return len(y0) != len(y1) or any(a.shape != b.shape or not torch.equal(a, b) for a, b in zip(y0, y1))
 
 
 def randomize(m, seed: int) -> None:
@@ -533,9 +543,22 @@ def check_clone(chk: Check, spec, m, x, seed: int, label: str):
             if sd0[k].numel() and sd0[k].data_ptr() == sd1[k].data_ptr():
                 problems.append(f"{label}: clone shares storage of {k} with the original")
                 break
-    y0, y1 = forward(spec, m, x, seed), forward(spec, c, x, seed)
-    if len(y0) != len(y1) or any(a.shape != b.shape or not torch.equal(a, b) for a, b in zip(y0, y1)):
-        problems.append(f"{label}: clone()(x) != module(x)")
+    # every tensor the module holds, not only what state_dict() lists (non-persistent buffers!)
+    import walker
+    t0, t1 = walker.module_tensors(m), walker.module_tensors(c)
+    if list(t0) != list(t1):
+        problems.append(f"{label}: clone holds different tensors: {sorted(set(t0) ^ set(t1))[:4]}")
+    else:
+        for k in t0:
+            if t0[k].shape != t1[k].shape or not torch.equal(t0[k], t1[k]):
+                kind_ = "buffer" if k in dict(m.named_buffers()) else "tensor"
+                problems.append(f"{label}: clone differs from the original in {kind_} {k}"
+                                + ("" if k in sd0 else " (not in state_dict())"))
+                break
+    for train in (False, True):
+        y0, y1 = forward(spec, m, x, seed, train), forward(spec, c, x, seed, train)
+        if outputs_differ(y0, y1):
+            problems.append(f"{label}: clone()(x) != module(x) in {'training' if train else 'eval'} mode")
     # model: strict load of the state dict into a module rebuilt from init_dict
     try:
         fresh = type(m)(**copy.deepcopy(m.init_dict))
@@ -687,6 +710,7 @@ def run_chain(chk: Check, case: dict):
         for ti, net in enumerate(targets):
             P0, B0 = snapshot(net)
             y0 = forward(spec, net, x, seed)
+            y0t = forward(spec, net, x, seed, train=True)
             mods0 = nested_mods(net)
             H0 = hyper(net)
             np.random.seed(st["seed"] % (2 ** 32))
@@ -748,7 +772,9 @@ def run_chain(chk: Check, case: dict):
             if same_arch(P0, P1) and same_arch(B0, B1):
                 res["tags"].append("arch-unchanged")
                 y1 = forward(spec, net, x, seed)
-                if len(y0) != len(y1) or any(not torch.equal(a, b) for a, b in zip(y0, y1)):
+                if not outputs_differ(y0, y1) and outputs_differ(y0t, forward(spec, net, x, seed, train=True)):
+                    res["problems"].append(f"{label}: architecture unchanged but module(x) changed in training mode")
+                if outputs_differ(y0, y1):
                     stale = [k for k in B0 if not k.endswith(NOISE_BUFFERS) and not torch.equal(B0[k], B1[k])]
                     same_params = all(torch.equal(P0[k], P1[k]) for k in P0)
                     if stale and same_params:
@@ -1007,9 +1033,23 @@ def suite_mutation(chk: Check, n: int) -> set:
 
 
 # ----------------------------------------------------------------------------- suite: agents
-def run_agent_case(chk: Check, algo: str, fam: str, seed: int):
-    """architecture mutation of a real agent -> (problems, diffs, hits, tags)"""
+MUT_KINDS = {"none": dict(no_mutation=1, architecture=0, parameters=0, activation=0, rl_hp=0),
+             "arch": dict(no_mutation=0, architecture=1, parameters=0, activation=0, rl_hp=0),
+             "param": dict(no_mutation=0, architecture=0, parameters=1, activation=0, rl_hp=0),
+             "act": dict(no_mutation=0, architecture=0, parameters=0, activation=1, rl_hp=0),
+             "rl_hp": dict(no_mutation=0, architecture=0, parameters=0, activation=0, rl_hp=1)}
+
+
+def _as_list(x):
+    return list(x) if isinstance(x, (list, tuple)) else [x]
+
+
+def run_agent_case(chk: Check, algo: str, fam: str, seed: int, kind: str = "arch", rounds: int = 1):
+    """`Mutations.mutation` rounds of one kind on a real agent -> (problems, diffs, hits, tags):
+    evaluation networks against the provenance map (kinds that must not touch weights: none, arch, rl_hp),
+    and after EVERY round each shared / target network bit-equal to the evaluation network it shadows"""
     import agents
+    import walker
     from agilerl.hpo.mutation import Mutations
     problems, diffs, hits, tags = [], [], set(), []
     try:
@@ -1019,53 +1059,66 @@ def run_agent_case(chk: Check, algo: str, fam: str, seed: int):
             tags.append("agent-trained")
         except Exception:
             tags.append("agent-untrained")
-        mut = Mutations(no_mutation=0, architecture=1, new_layer_prob=0.3, parameters=0, activation=0,
-                        rl_hp=0, rand_seed=seed, device="cpu")
-        before = {}
+        # whatever learn_once did: evaluation and target networks must start out different, otherwise a
+        # target that keeps its own weights could not be told from one that was reloaded
         for g in agent.registry.groups:
-            net = getattr(agent, g.eval)
-            for i, nn_ in enumerate(net if isinstance(net, list) else [net]):
-                before[(g.eval, i)] = snapshot(nn_)
-        np.random.seed(seed % (2 ** 32))
-        torch.manual_seed(seed)
-        agent = mut.mutation([agent])[0]
-        tags.append(f"agent-mut-{agent.mut}")
-        for g in agent.registry.groups:
-            net = getattr(agent, g.eval)
-            for i, nn_ in enumerate(net if isinstance(net, list) else [net]):
-                P0, B0 = before[(g.eval, i)]
-                P1, B1 = snapshot(nn_)
-                mode = step_mode(nn_, nn_.last_mutation_attr) if nn_.last_mutation_attr else "full"
-                p, d, h, t = compare_step(chk, P0, B0, P1, B1, mode)
-                problems += [f"{g.eval}[{i}]: {s_}" for s_ in p]
-                diffs += [f"{g.eval}[{i}]: {s_}" for s_ in d]
-                hits |= h
-                tags += t
-                # shared (target) networks are re-created from the mutated eval network
-                shared = g.shared if isinstance(g.shared, (list, tuple)) else ([g.shared] if g.shared else [])
-                for sh in shared:
-                    snet = getattr(agent, sh)
-                    s_ = (snet if isinstance(snet, list) else [snet])[i]
-                    sd_e, sd_s = nn_.state_dict(), s_.state_dict()
-                    for k in sd_e:
-                        if k in sd_s and (sd_e[k].shape != sd_s[k].shape or not torch.equal(sd_e[k], sd_s[k])):
-                            problems.append(f"{sh}[{i}]: re-created shared network differs from {g.eval} in {k}")
-                            break
-                    tags.append("shared-reinit")
+            for nn_ in _as_list(getattr(agent, g.eval)):
+                randomize(nn_, seed + 31)
+        mut = Mutations(new_layer_prob=0.3, rand_seed=seed, device="cpu", **MUT_KINDS[kind])
+        for rnd in range(rounds):
+            before = {}
+            for g in agent.registry.groups:
+                for i, nn_ in enumerate(_as_list(getattr(agent, g.eval))):
+                    before[(g.eval, i)] = snapshot(nn_)
+            np.random.seed((seed + rnd) % (2 ** 32))
+            torch.manual_seed(seed + rnd)
+            agent = mut.mutation([agent])[0]
+            tags.append(f"agent-mut-{kind}")
+            for g in agent.registry.groups:
+                nets = _as_list(getattr(agent, g.eval))
+                if isinstance(getattr(agent, g.eval), list):
+                    tags.append("eval-list")
+                for i, nn_ in enumerate(nets):
+                    if kind in ("none", "arch", "rl_hp"):
+                        P0, B0 = before[(g.eval, i)]
+                        P1, B1 = snapshot(nn_)
+                        mode = step_mode(nn_, nn_.last_mutation_attr) if nn_.last_mutation_attr else "full"
+                        p, d, h, t = compare_step(chk, P0, B0, P1, B1, mode)
+                        problems += [f"round {rnd} {g.eval}[{i}]: {s_}" for s_ in p]
+                        diffs += [f"round {rnd} {g.eval}[{i}]: {s_}" for s_ in d]
+                        hits |= h
+                        tags += t
+                    # shared (target) networks are re-created from the mutated evaluation network
+                    for sh in _as_list(g.shared) if g.shared else []:
+                        snets = _as_list(getattr(agent, sh))
+                        if len(snets) != len(nets):
+                            problems.append(f"round {rnd} {sh}: {len(snets)} shared networks for {len(nets)} in {g.eval}")
+                            continue
+                        te, ts = walker.module_tensors(nn_), walker.module_tensors(snets[i])
+                        tags.append("shared-reinit" + ("-list" if len(nets) > 1 else ""))
+                        if list(te) != list(ts):
+                            problems.append(f"round {rnd} {sh}[{i}]: holds different tensors than {g.eval}[{i}]: "
+                                            f"{sorted(set(te) ^ set(ts))[:4]}")
+                            continue
+                        for k in te:
+                            if te[k].shape != ts[k].shape or not torch.equal(te[k], ts[k]):
+                                problems.append(f"round {rnd} after a '{kind}' mutation: re-created shared network "
+                                                f"{sh}[{i}] differs from the evaluation network {g.eval}[{i}] in {k}")
+                                break
     except Exception as e:
-        problems.append(f"{algo}/{fam}: raised {type(e).__name__}: {e}")
+        problems.append(f"{algo}/{fam}/{kind}: raised {type(e).__name__}: {e}")
     return problems, diffs, hits, tags
 
 
 def suite_agent(chk: Check, combos) -> set:
     all_hits, nd = set(), 0
-    for algo, fam, seed in combos:
-        case = {"suite": "agent", "algo": algo, "family": fam, "seed": seed}
-        problems, diffs, hits, tags = run_agent_case(chk, algo, fam, seed)
+    for algo, fam, seed, kind, rounds in combos:
+        case = {"suite": "agent", "algo": algo, "family": fam, "seed": seed, "kind": kind, "rounds": rounds}
+        problems, diffs, hits, tags = run_agent_case(chk, algo, fam, seed, kind, rounds)
         chk.case(["agent", case], nontrivial=True, tags=sorted(set(tags)) + ["agent-" + algo])
         all_hits |= report(chk, case, problems, diffs, hits, None)
         nd += bool(diffs)
-    chk.suite("agent-architecture-mutate", len(combos), nd)
+    chk.suite("agent-mutation-rounds", len(combos), nd)
     return all_hits
 
 
@@ -1203,11 +1256,22 @@ def run(chk: Check) -> None:
     suite_index(chk, 40 if quick else 400)
     hits = suite_pure(chk, 60 if quick else 1200)
     hits |= suite_mutation(chk, 45 if quick else 700)
-    combos = [("DQN", "vector", 1), ("DQN", "image", 2), ("DDPG", "vector", 3)]
+    # (algorithm, observation family, seed, mutation kind, rounds of Mutations.mutation)
+    combos = [("DQN", "vector", 1, "arch", 2), ("DQN", "image", 2, "arch", 1), ("DDPG", "vector", 3, "arch", 1),
+              ("MADDPG", "vector", 4, "none", 1), ("MADDPG", "vector", 5, "arch", 2), ("MATD3", "vector", 6, "arch", 1),
+              ("MATD3", "vector", 7, "param", 1), ("IPPO", "vector", 8, "arch", 2), ("RainbowDQN", "vector", 9, "none", 1),
+              ("TD3", "vector", 10, "rl_hp", 1), ("DQN", "vector", 11, "act", 1)]
     if not quick:
-        combos += [("RainbowDQN", "vector", 4), ("TD3", "image", 5), ("PPO", "vector", 6), ("PPO", "dict", 7),
-                   ("CQN", "vector", 8), ("DDPG", "dict", 9), ("NeuralUCB", "vector", 10), ("MADDPG", "vector", 11),
-                   ("IPPO", "vector", 12), ("DQN", "dict", 13), ("DQN", "tuple", 14)]
+        rng = chk.rng
+        for algo in ("DQN", "RainbowDQN", "CQN", "DDPG", "TD3", "PPO", "NeuralUCB", "NeuralTS", "MADDPG", "MATD3", "IPPO"):
+            for fam in ("vector", "image", "dict"):
+                try:
+                    import agents
+                    if not agents.supported(algo, fam) or agents.known_broken(algo, fam):
+                        continue
+                except Exception:
+                    continue
+                combos.append((algo, fam, rng.randrange(1 << 20), rng.choice(list(MUT_KINDS)), rng.randint(1, 3)))
     hits |= suite_agent(chk, combos)
     # defects met inside the random suites are routed through the same finding ids as the probes
     for fid in sorted(hits - _REPORTED):
@@ -1337,7 +1401,8 @@ def replay(chk: Check, path: str) -> int:
         problems, diffs, hits = r["problems"], r["diffs"], r["hits"]
         print(json.dumps({"applied": r["applied"], "tags": sorted(set(r["tags"]))}))
     elif suite == "agent":
-        problems, diffs, hits, _ = run_agent_case(chk, c["algo"], c["family"], c["seed"])
+        problems, diffs, hits, _ = run_agent_case(chk, c["algo"], c["family"], c["seed"], c.get("kind", "arch"),
+                                                  c.get("rounds", 1))
     elif suite == "probe":
         found = PROBES[c["probe"]](chk)
         print(json.dumps({"probe": c["probe"], "still_fails": bool(found), "detail": found[1] if found else None}))
